@@ -150,10 +150,12 @@ def gen_graph(tape, max_nodes=12, min_nodes=1):
 def gen_request(tape, spec):
     keys = [n["key"] for n in spec["nodes"]]
     with tape.span("request"):
-        r = tape.draw(6, "reqshape")
+        r = tape.draw(9, "reqshape")
         last = keys[-1]
         if r == 0:
             return last
+        if r == 6:   # requests naming no key at all: nothing is needed, nothing may run
+            return [[], [[]], [[], []]][tape.draw(3, "empty")]
         if r == 1:
             return keys[len(keys) - 1 - tape.draw(len(keys), "req")]
         if r == 2:
@@ -164,6 +166,10 @@ def gen_request(tape, spec):
             return picks
         if r == 4:
             return [picks[:1], picks[1:] + picks[:1]] if len(picks) > 1 else [picks]
+        if r == 7:   # a level mixing keys and sub-lists, key first
+            return [last, picks]
+        if r == 8:   # deeper mixed nesting, with an empty sub-list
+            return [[picks[0], [last, picks[:1]]], last, []]
         return [[picks[0]], picks, [[last]]]
 
 
